@@ -25,12 +25,14 @@ type kval struct {
 }
 
 type kindWalker struct {
-	c     *Ctx
-	fn    *ssa.Function
-	param *ssa.Parameter
-	kind  int64
-	pkg   string
-	env   map[ssa.Value]kval
+	// kindOf, when set, gives the kind of other values whose Kind() is taken (a type obtained from the argument, its element type)
+	kindOf func(v ssa.Value) (int64, bool)
+	c      *Ctx
+	fn     *ssa.Function
+	param  *ssa.Parameter
+	kind   int64
+	pkg    string
+	env    map[ssa.Value]kval
 	// calls whose result is a non-zero value of interest (e.g. rtTypePtr)
 	symCalls map[string]bool
 }
@@ -41,6 +43,15 @@ func (w *kindWalker) val(v ssa.Value, depth int) kval {
 	}
 	if kv, ok := w.env[v]; ok {
 		return kv
+	}
+	if w.kindOf != nil {
+		// a type value is represented by its kind, so that a type variable merged from several types carries the kind of the
+		// one the walk came through
+		if _, isCall := v.(*ssa.Call); isCall || v == ssa.Value(w.param) {
+			if k, ok := w.kindOf(v); ok {
+				return kval{known: true, i: k}
+			}
+		}
 	}
 	switch x := v.(type) {
 	case *ssa.Const:
@@ -67,6 +78,18 @@ func (w *kindWalker) val(v ssa.Value, depth int) kval {
 	case *ssa.Call:
 		if x.Call.IsInvoke() && x.Call.Method.Name() == "Kind" && x.Call.Value == ssa.Value(w.param) {
 			return kval{known: true, i: w.kind}
+		}
+		if w.kindOf != nil {
+			if x.Call.IsInvoke() && x.Call.Method.Name() == "Kind" {
+				if k, ok := w.kindOf(x.Call.Value); ok {
+					return kval{known: true, i: k}
+				}
+			}
+			if f := x.Call.StaticCallee(); f != nil && f.String() == "(reflect.Value).Kind" && len(x.Call.Args) == 1 {
+				if k, ok := w.kindOf(x.Call.Args[0]); ok {
+					return kval{known: true, i: k}
+				}
+			}
 		}
 		if f := x.Call.StaticCallee(); f != nil && len(x.Call.Args) == 0 && fnPkgPath(f) == w.pkg {
 			return kval{sym: f.Name() + "()"}
